@@ -125,7 +125,8 @@ def run(ctx):
                 ref = ref or o["time"]
             # ---- Sensornet: naive stamps in a DST zone, measurement ending just after the spring-forward gap
             d = os.path.join(tmp, f"sensornet{c}")
-            gen_files.sensornet_files(d, 3, "oryx")
+            acq_sn = [(int(rng.integers(5, 200)), int(rng.integers(5, 200))) for _ in range(3)]   # the acquisition times change from file to file
+            gen_files.sensornet_files(d, 3, "oryx", acq=acq_sn)
             for zone in ("UTC", "Europe/Amsterdam", "America/New_York"):
                 for host in hosts[:2]:
                     rec = {"reader": "sensornet", "timezone_input_files": zone, "host_tz": host}
@@ -134,9 +135,12 @@ def run(ctx):
                     if "error" in o:
                         ctx.violation(f"sensornet:raised:{zone}", o["error"], rec)
                         continue
-                    fw, bw = o.get("acquisitiontimeFW", [0])[0], o.get("acquisitiontimeBW", [0])[0]
-                    if any(secs(e, s) != fw + bw for s, e in zip(o["timestart"], o["timeend"])):
-                        ctx.violation(f"sensornet:interval-wrong:{zone}", f"timeend - timestart != {fw}+{bw}", rec)
+                    for fi, (fw, bw) in enumerate(acq_sn):
+                        if (o.get("acquisitiontimeFW", [None] * 3)[fi] != fw or secs(o["timeend"][fi], o["timestart"][fi]) != fw + bw
+                                or secs(o["time"][fi], o["timestart"][fi]) != fw):
+                            ctx.violation(f"sensornet:interval-wrong:{zone}", f"file {fi}: timestart/time/timeend {o['timestart'][fi]} {o['time'][fi]} {o['timeend'][fi]} "
+                                          f"for acquisition times {fw}+{bw} (reported forward time {o.get('acquisitiontimeFW')})", rec)
+                            break
         # DST edge (deterministic): a single-ended Sensornet measurement that ends 03:00:05 local time on the night the
         # clocks go forward (02:00 -> 03:00) with an acquisition time of 30 s started at 01:59:35 local = 00:59:35 UTC
         d = os.path.join(tmp, "dst")
